@@ -301,7 +301,7 @@ StateViolations ==
 \cup (IF CallUsesEnabledVersion THEN {} ELSE {"C17.CallUsesEnabledVersion"})
 \cup (IF NameTableMatchesVersion THEN {} ELSE {"C17.NameTableMatchesVersion"})
 \cup (IF LackingNodeStops THEN {} ELSE {"C17.LackingNodeStops"})
-\cup (IF VersionFromLog THEN {} ELSE {"C17.VersionFromLog"})
+\cup (IF VersionFromLog THEN {} ELSE IF UserSer THEN {"C17.VersionFromLog#KF8"} ELSE {"C17.VersionFromLog"})
 \cup (IF SwitchValidation THEN {} ELSE {"C17.SwitchValidation"})
 \cup (IF OneChangeAtATime THEN {} ELSE {"C10.OneChangeAtATime"})
 \cup (IF ViewFromLog THEN {} ELSE IF \A n \in ViewBad : ReapplySig(n) \/ reapply[n] > 0 THEN {"C10.ViewFromLog#KF1"}
